@@ -4,6 +4,10 @@ use crate::util::*;
 use crate::Tier;
 use succinctly::verif_hooks as h;
 
+pub fn tables() -> Vec<(&'static str, String)> {
+    vec![("SELECT_IN_BYTE_TABLE", crate::json_list(h::SELECT_IN_BYTE_TABLE.iter()))]
+}
+
 pub fn exec(a: &[&str]) -> String {
     match a[0] {
         // sel <word> <k>  ->  ctz,broadword,pdep|-,dispatch
